@@ -7,14 +7,18 @@
    scope from which the name is visible; for constants of number/bool/string type the value observed is
    always the initializer.
 
-   PROVED (on the model of the FIXED compiler, fixes/const-*.diff): the first half, for all programs of the
-   mini-language at any nesting depth -- `const_never_written`.
-   NOT PROVED in Coq (`const_value_stable`): that the run-time store instructions resolve a name the same
-   way the compile-time scopes do; the tie observes the printed value of the constant on the real binary
-   for every accepted (shadowing / imported-copy) case instead.  The statement would read
-     forall p fuel out, check cfg_fixed p = true -> eval fuel p = Done out ->
-       forall x v, observed out x v -> declared_const_with p x v. *)
-From MS Require Import Const.Model Const.Spec Const.Proofs.
+   PROVED (on the model of the FIXED compiler, fixes/const-*.diff):
+   * the first half, for all programs of the mini-language at any nesting depth -- `const_never_written`;
+   * the second half on a small evaluation model of the run-time variable store (Const/Eval.v: frames,
+     `store` = update-where-found-in-the-function-else-bind, `store_fast`/`unwrap_into` = top frame,
+     bin_op_assign, loop counter incl. delete_name_scoped; arbitrary values, branches, iteration counts,
+     early exits) for the CLOSURE-FREE part of the mini-language -- `const_value_stable_partial`:
+     every read of a binding created by a `const` declaration returns the value it was created with.
+   NOT PROVED: const_value_stable for programs with function literals, methods, `modify`, imports and
+   unpacking (the evaluation model has no rules for them: closures capture cells by reference and run later);
+   the tie observes the printed value of the constant on the real binary for those cases instead. *)
+From MS Require Import Const.Model Const.Spec Const.Proofs Const.Eval Const.EvalProofs.
+
 
 (* an accepted program contains no write form (=, typed =, const re-declaration, modify, op=, ?=, x[i] =,
    x.f =, x[i] op=, x.f op=, loop counter, unpacking), in any scope and at any nesting depth, whose target
@@ -37,6 +41,25 @@ Theorem C10_head_refuted : forall p, In p [wit_unwrap; wit_counter; wit_index_op
   check cfg_head p = true /\ no_const_write_b p = false /\ check cfg_fixed p = false.
 Proof. exact head_refuted. Qed.
 Print Assumptions C10_head_refuted.
+
+(* value stability on the evaluation model (closure-free programs): any execution, any values written *)
+Check const_value_stable : forall (p : block) (st : stack) (l : log),
+  check cfg_fixed p = true -> exb module_frame p st l -> Forall read_ok l.
+Theorem C10_const_value_stable_partial : forall (p : block) (st : stack) (l : log),
+  check cfg_fixed p = true -> exb module_frame p st l -> Forall read_ok l.
+Proof. exact const_value_stable. Qed.
+Print Assumptions C10_const_value_stable_partial.
+Check (eq_refl : read_ok = fun r => rconst r = true -> rval r = rinit r).
+
+(* non-vacuity of the evaluation model: an accepted program runs and reads its const twice; on the tree before
+   the fix the counter and `?=` programs are accepted and an execution exists in which the const is read with a
+   value different from its initializer *)
+Check p_ok_runs : check cfg_fixed p_ok = true /\
+  exists st l, exb module_frame p_ok st l /\ l = [mkR a 5 true 5; mkR a 5 true 5].
+Check head_value_changes : check cfg_head p_counter_read = true /\ check cfg_fixed p_counter_read = false /\
+  exists st l, exb module_frame p_counter_read st l /\ ~ Forall read_ok l.
+Check head_value_changes_unwrap : check cfg_head p_unwrap_read = true /\ check cfg_fixed p_unwrap_read = false /\
+  exists st l, exb module_frame p_unwrap_read st l /\ ~ Forall read_ok l.
 
 (* non-vacuity: a program with writes at depth 3 (block in closure in method) that is accepted, has a
    non-empty list of write occurrences, and one that differs only by a const and is rejected *)
